@@ -24,10 +24,11 @@ MANIFEST = {
 }
 KNOWN_FINDINGS = []
 
-DOCKER_ERR = ["err500", "badjson", "drop"]
+# (errors whose TEXT resembles a not-found answer are still errors: the runtime could not be asked)
+DOCKER_ERR = ["err500", "badjson", "drop", "err500nosuchfile", "err500notfoundtext"]
 DOCKER_GONE = ["notfound", "exited", "dead"]
 DOCKER_ALIVE = ["running", "created", "paused", "restarting", "removing", "Exited", "nostate", ""]
-CRI_ERR = ["unavailable", "unknown"]
+CRI_ERR = ["unavailable", "unknown", "unknown_nosuch"]
 
 
 def cnat(n):
